@@ -52,15 +52,16 @@ _B_RULES = [
 def policies(kind):
     """policy 0 (A) and policy 1 (B): they decide both requests differently, in effect, rule id,
     reason (and policy id for sets)."""
-    single = [{"algorithm": "deny-overrides", "rules": copy.deepcopy(_A_RULES)},
-              {"algorithm": "deny-overrides", "rules": copy.deepcopy(_B_RULES)}]
+    # top-level ids differ too: a Decision assembled from two policies shows in whatever field carries them
+    single = [{"id": "policy-A", "algorithm": "deny-overrides", "rules": copy.deepcopy(_A_RULES)},
+              {"id": "policy-B", "algorithm": "deny-overrides", "rules": copy.deepcopy(_B_RULES)}]
     if kind == "single":
         return single
     if kind == "mixed":      # a single policy replaced by a policy set
         return [single[0], policies("set")[1]]
-    return [{"algorithm": "deny-overrides",
+    return [{"id": "set-A", "algorithm": "deny-overrides",
              "policies": [{"id": "pA", "algorithm": "deny-overrides", "rules": copy.deepcopy(_A_RULES)}]},
-            {"algorithm": "deny-overrides",
+            {"id": "set-B", "algorithm": "deny-overrides",
              "policies": [{"id": "pB", "algorithm": "deny-overrides", "rules": copy.deepcopy(_B_RULES)}]}]
 
 
